@@ -76,6 +76,16 @@ fn transform(rng: &mut Rng, text: &str, which: usize) -> String {
             let filler = rng.pick_str(&[" [- é c -] ", " [- é c -]", "[- é c -] ", " [- c -]", "[-c-] ", "  [- é c -][- d -] "]);
             format!("{}{filler}{}", &text[..g], &text[g + 1..])
         }
+        6 => { // block comment inside braces that hold no quantity (`{}` / `{ }` after a component name): still no quantity
+            let lines_v: Vec<&str> = text.split('\n').collect();
+            let spots: Vec<(usize, usize)> = text.match_indices("{}").map(|(i, _)| (i + 1, i + 1)).chain(text.match_indices("{ }").map(|(i, _)| (i + 1, i + 2)))
+                .filter(|&(i, _)| { let ln = text[..i].matches('\n').count(); let ls = text[..i].rfind('\n').map(|p| p + 1).unwrap_or(0); let l = lines_v[ln];
+                    !in_front(&lines_v, ln) && !l.starts_with('>') && !l.starts_with('=') && text[ls..i - 1].contains(|c| c == '@' || c == '#' || c == '~') }).collect();
+            if spots.is_empty() { return text.to_string(); }
+            let (a, e) = spots[rng.below(spots.len())];
+            let filler = rng.pick_str(&["[- c -]", " [- to taste -] ", " [- c -]", "[- é -] ", "[- c -][- d -]"]);
+            format!("{}{filler}{}", &text[..a], &text[e..])
+        }
         _ => { // extra blank / comment-only lines between blocks: after an existing blank line
             let idxs: Vec<usize> = (1..lines.len()).filter(|&i| lines[i].is_empty() && !in_front(&lines, i)).collect();
             if idxs.is_empty() { return text.to_string(); }
@@ -169,7 +179,7 @@ fn directed_pairs(ctx: &mut Ctx) {
 }
 
 pub fn run(ctx: &mut Ctx) {
-    ctx.rule = "well-formed recipes (as C01, plain spelling) and, for CRLF, also soups without backslash / lone CR; every other extended recipe with units spelled `{1 kg}`; 6 transformations (LF->CRLF, trailing comment, trailing spaces, block comment between two words of step text, extra blank/comment-only lines between blocks, block comment between two words, or between a number and a word, inside a component name / alias / quantity / unit / text value / note or a section name, with a blank on both sides or glued to either neighbour) at random insertion points, preceded by the directed pairs of corpus/C17-pairs.txt; oracle: the parsed recipe is equal up to whitespace inside step text and validity is equal; original and transformed input both go through the model. non-trivial = recipe with components / several sections / diagnostics".into();
+    ctx.rule = "well-formed recipes (as C01, plain spelling) and, for CRLF, also soups without backslash / lone CR; every other extended recipe with units spelled `{1 kg}`; 7 transformations (block comment inside braces without a quantity, LF->CRLF, trailing comment, trailing spaces, block comment between two words of step text, extra blank/comment-only lines between blocks, block comment between two words, or between a number and a word, inside a component name / alias / quantity / unit / text value / note or a section name, with a blank on both sides or glued to either neighbour) at random insertion points, preceded by the directed pairs of corpus/C17-pairs.txt; oracle: the parsed recipe is equal up to whitespace inside step text and validity is equal; original and transformed input both go through the model. non-trivial = recipe with components / several sections / diagnostics".into();
     let mut rng = Rng::new(ctx.seed ^ 0xC17);
     // the side conditions of the CRLF theorem (C17_crlf: CR and LF are neither lexer white space nor word characters)
     // must hold of the character table generated from the real lexer on this run
@@ -187,7 +197,7 @@ pub fn run(ctx: &mut Ctx) {
         // every other extended recipe spells its units the ADVANCED_UNITS way (`{1 kg}` instead of `{1%kg}`)
         let base = wf::spell(&r, &Style { seed: rng.next(), spaces: false, comments: false, wrap: i % 2 == 0, crlf: false, unit_space: i % 4 == 3 });
         let Some(b) = recipe_case(ctx, &base, ext, conv) else { continue };
-        for which in 0..6 {
+        for which in 0..7 {
             let t = transform(&mut rng, &base, which);
             if t == base { ctx.count(&format!("transform{which}:not-applicable")); continue; }
             ctx.count(&format!("transform{which}"));
